@@ -11,6 +11,7 @@
      Edge(c)      next child c of the top frame: on the path => the cycle error (terminal); visited => skipped; else descend
      Return       the top frame has no child left: below the root the vertex is appended to the result; a root is appended
                   in the phases "roots" and "rest" (never in "allcyc")
+     Substitute   (after "done") the next definition of the order gets the current right-hand sides of its references substituted in
      NextPhase    "roots" exhausted => "rest": whatever is still unvisited can be reached only through a cycle;
                   "rest" exhausted => done, the result keeps only the vertices that depend on something
    Design questions, for ALL iteration orders and (Resolve.cfg with CASES = every graph up to a size) all graphs:
@@ -18,6 +19,7 @@
      CycleSound   the cycle error is raised only for a child that closes a real cycle (the reported spans are that walk)
      CycleComplete  "done" is reached only if the graph is acyclic
      Reachable    the `unreachable!()` after the "allcyc" loop is never reached
+     FullyResolved  after the substitution loop that consumes the order (Substitute) no definition mentions a defined name
      OrderOk      on "done" the order lists exactly the vertices that depend on something, each once, and every vertex
                   after all the vertices it depends on - so each definition is substituted into its users only after it
                   has itself been fully resolved (which is what resolve_nonterminals relies on)
@@ -37,16 +39,17 @@ Below(c, v) == IF Ch(c, v) = {} THEN {} ELSE Desc(c, Ch(c, v))          \* what 
 Cyclic == [c \in 1..N |-> \E v \in V(c) : v \in Below(c, v)]
 Roots(c) == { v \in V(c) : \A u \in V(c) : v \notin Ch(c, u) }
 
-VARIABLES case, pc, phase, pending, path, stack, visited, result, cur, closing
-vars == <<case, pc, phase, pending, path, stack, visited, result, cur, closing>>
+VARIABLES case, pc, phase, pending, path, stack, visited, result, cur, closing, refs, si
+vars == <<case, pc, phase, pending, path, stack, visited, result, cur, closing, refs, si>>
 
 Init == \E c \in 1..N :
    /\ case = c /\ pc = "start" /\ phase = "roots" /\ pending = {} /\ path = <<>> /\ stack = <<>>
    /\ visited = {} /\ result = <<>> /\ cur = "" /\ closing = ""
+   /\ refs = [v \in V(c) |-> Ch(c, v)] /\ si = 1
 
 Start == /\ pc = "start" /\ pc' = "pick"
          /\ IF Roots(case) = {} THEN phase' = "allcyc" /\ pending' = V(case) ELSE phase' = "roots" /\ pending' = Roots(case)
-         /\ UNCHANGED <<case, path, stack, visited, result, cur, closing>>
+         /\ UNCHANGED <<case, path, stack, visited, result, cur, closing, refs, si>>
 
 \* `if visited.contains(&vertex) { continue; }` of the "allcyc" and "rest" loops: skipping commutes, so all at once
 \* RESOLVE_FIRSTONLY=1 models the code before fix 4d45051 (the "allcyc" loop tried one vertex only): a vacuity control for Reachable
@@ -55,10 +58,10 @@ Candidates == IF phase = "roots" THEN pending
               ELSE IF phase = "allcyc" /\ FirstOnly /\ pending # V(case) THEN {} ELSE pending \ visited
 PickRoot(v) == /\ pc = "pick" /\ v \in Candidates
                /\ pending' = pending \ {v} /\ path' = <<v>> /\ cur' = v /\ pc' = "enter"
-               /\ UNCHANGED <<case, phase, stack, visited, result, closing>>
+               /\ UNCHANGED <<case, phase, stack, visited, result, closing, refs, si>>
 Enter == /\ pc = "enter" /\ visited' = visited \cup {cur}
          /\ stack' = Append(stack, [v |-> cur, todo |-> Ch(case, cur)]) /\ pc' = "dfs"
-         /\ UNCHANGED <<case, phase, pending, path, result, cur, closing>>
+         /\ UNCHANGED <<case, phase, pending, path, result, cur, closing, refs, si>>
 Top == stack[Len(stack)]
 EdgeKind(c) == IF c \in ToSet(path) THEN "cycle" ELSE IF c \in visited THEN "seen" ELSE "descend"
 Edge(c) == /\ pc = "dfs" /\ Len(stack) > 0 /\ c \in Top.todo
@@ -66,7 +69,7 @@ Edge(c) == /\ pc = "dfs" /\ Len(stack) > 0 /\ c \in Top.todo
            /\ (CASE EdgeKind(c) = "cycle" -> (pc' = "cycle" /\ closing' = c /\ UNCHANGED <<path, cur>>)
                  [] EdgeKind(c) = "seen" -> UNCHANGED <<pc, path, cur, closing>>
                  [] OTHER -> (pc' = "enter" /\ cur' = c /\ path' = Append(path, c) /\ UNCHANGED closing))
-           /\ UNCHANGED <<case, phase, pending, visited, result>>
+           /\ UNCHANGED <<case, phase, pending, visited, result, refs, si>>
 \* the vertex Return appends to the result, "" if none
 Emitted == IF Len(stack) > 1 \/ phase # "allcyc" THEN Top.v ELSE ""
 Return == /\ pc = "dfs" /\ Len(stack) > 0 /\ Top.todo = {}
@@ -74,15 +77,24 @@ Return == /\ pc = "dfs" /\ Len(stack) > 0 /\ Top.todo = {}
           /\ result' = IF Emitted = "" THEN result ELSE Append(result, Emitted)
           /\ IF Len(stack) > 1 THEN path' = SubSeq(path, 1, Len(path) - 1) /\ pc' = "dfs"
                                ELSE path' = <<>> /\ pc' = "pick"
-          /\ UNCHANGED <<case, phase, pending, visited, cur, closing>>
+          /\ UNCHANGED <<case, phase, pending, visited, cur, closing, refs, si>>
 DependsOnSomething(v) == Ch(case, v) # {}
-Final == SelectSeq(result, DependsOnSomething)
+\* RESOLVE_REVERSED=1: the order consumed back to front - a vacuity control for OrderOk / FullyResolved
+Reversed == "RESOLVE_REVERSED" \in DOMAIN IOEnv
+Rev(s) == [i \in 1..Len(s) |-> s[Len(s) + 1 - i]]
+Final == IF Reversed THEN Rev(SelectSeq(result, DependsOnSomething)) ELSE SelectSeq(result, DependsOnSomething)
 NextPhase == /\ pc = "pick" /\ Candidates = {}
              /\ (CASE phase = "roots" -> (phase' = "rest" /\ pending' = V(case) \ visited /\ pc' = "pick")
                    [] phase = "rest" -> (pc' = "done" /\ UNCHANGED <<phase, pending>>)
                    [] OTHER -> (pc' = "unreachable" /\ UNCHANGED <<phase, pending>>))
-             /\ UNCHANGED <<case, path, stack, visited, result, cur, closing>>
-Next == Start \/ (\E v \in V(case) : PickRoot(v) \/ Edge(v)) \/ Enter \/ Return \/ NextPhase
+             /\ UNCHANGED <<case, path, stack, visited, result, cur, closing, refs, si>>
+\* the loop of ValidGrammar::from_grammar that follows: in the computed order, each definition's right-hand side gets the CURRENT
+\* right-hand sides of the definitions it refers to substituted in (resolve_nonterminals); refs[v] = defined names v still mentions
+Substitute == /\ pc = "done" /\ si <= Len(Final)
+              /\ LET v == Final[si] IN refs' = [refs EXCEPT ![v] = UNION { refs[c] : c \in refs[v] }]
+              /\ si' = si + 1
+              /\ UNCHANGED <<case, pc, phase, pending, path, stack, visited, result, cur, closing>>
+Next == Start \/ (\E v \in V(case) : PickRoot(v) \/ Edge(v)) \/ Enter \/ Return \/ NextPhase \/ Substitute
 
 \* ---- design questions
 Walk == /\ \A i \in 1..(Len(path) - 1) : path[i + 1] \in Ch(case, path[i])
@@ -100,6 +112,10 @@ OrderOk == pc = "done" => LET f == Final IN
 \* every vertex is entered at most once, and the result never holds a vertex twice
 Once == \A i, j \in 1..Len(result) : result[i] = result[j] => i = j
 
+\* after the substitution loop no definition mentions a defined name any more, so substituting definitions into the call variants
+\* once leaves no reference behind
+FullyResolved == (pc = "done" /\ si > Len(Final)) => \A v \in V(case) : refs[v] = {}
+ReportFullyResolved == FullyResolved \/ PrintT(<<"MECH", D[case].id, "fully_resolved">>)
 ReportWalk == Walk \/ PrintT(<<"MECH", D[case].id, "walk">>)
 ReportCycleSound == CycleSound \/ PrintT(<<"MECH", D[case].id, "cycle_sound">>)
 ReportCycleComplete == CycleComplete \/ PrintT(<<"MECH", D[case].id, "cycle_complete">>)
